@@ -1,4 +1,4 @@
-import Fatchoy.Model.C05Sched
+import Fatchoy.Model.C06Fine
 import Fatchoy.Drv.Util
 /-!
 Line-protocol driver of the timer models (C05 and C06 share it).
@@ -10,6 +10,10 @@ Line-protocol driver of the timer models (C05 and C06 share it).
   advance N     wheel: N ticks (one `update`); heap: N units pass, then one tick        -> fired=ids | panic
   clock N       heap: N units pass, no tick                                             -> ok
   size | sched ID | links                       Size(), IsScheduled(ID), where the back end holds which id
+  fbegin N      a tick in steps (Model/C06Fine.lean): wheel: enter tick; heap: N units pass, enter tick  -> ok
+  yield         run the worker to its next schedule point inside the tick              -> decide ID | send ID | none
+                (client lines after it are calls made AT that point: after / every / cancel / size / sched)
+  fend          run the worker to the end of the tick (no further schedule point may come: bad-sched)   -> fired=ids
 
 The consumer of `C` is the driver: it empties the delivery log before every `advance` and prints what
 the step put there.
@@ -17,10 +21,12 @@ the step put there.
 namespace Fatchoy.C05
 open Fatchoy.Drv
 
+/-- `ann`: the worker is paused AT a schedule point that has been announced (the step behind it runs with
+the next `yield` / `fend`) -/
 inductive Sim
   | off
-  | wheel (s : WS)
-  | heap (s : HS)
+  | wheel (x : WF) (ann : Bool)
+  | heap (x : HF) (ann : Bool)
 
 def showOut : Out → String
   | .id n => s!"id={n}"
@@ -53,39 +59,100 @@ def act? (ws : List String) : Option Act :=
   | ["del"] => some .del
   | _ => none
 
+/-- schedule point the wheel's worker is at, if any: (kind, id) -/
+def wPoint (x : WF) : Option (String × Nat) :=
+  match x.pc with
+  | .pass _ (n :: _) => some ("decide", n.id)
+  | .send _ n _ => some ("send", n.id)
+  | _ => none
+
+/-- schedule point the heap's worker is at, if any -/
+def hPoint (x : HF) : Option (String × Nat) :=
+  match x.pc with
+  | .trig now maxId _ =>
+    match x.s.heap with
+    | n :: _ => if now < n.deadline then none else if n.id > maxId then none else some ("decide", n.id)
+    | [] => none
+  | .sends _ (p :: _) => some ("send", p.1)
+  | _ => none
+
+def wIdle (x : WF) : Bool := match x.pc with | .idle => true | _ => false
+def hIdle (x : HF) : Bool := match x.pc with | .idle => true | _ => false
+
+/-- run the worker's silent steps (no schedule point) until a schedule point or the end of the tick;
+`none` = a step panicked -/
+def wSilent (G : Geom) : Nat → WF → Option WF
+  | 0, x => some x
+  | fuel + 1, x =>
+    if wIdle x || (wPoint x).isSome then some x else
+    match WF.step G x .next with
+    | .ok x' _ => wSilent G fuel x'
+    | _ => none
+
+def hSilent (G : Geom) : Nat → HF → Option HF
+  | 0, x => some x
+  | fuel + 1, x =>
+    if hIdle x || (hPoint x).isSome then some x else
+    match HF.step G x .next with
+    | .ok x' _ => hSilent G fuel x'
+    | _ => none
+
+def showPoint : Option (String × Nat) → String
+  | some (k, id) => s!"{k} {id}"
+  | none => "none"
+
 def drvStep (G : Geom) (sim : Sim) (line : String) : Sim × String :=
   let ws := words line
   match ws with
   | ["new", "wheel", p, t] =>
     match (kvNat? [p] "pos"), (kvNat? [t] "time") with
     | some p, some t =>
-      if p < G.wrap then (.wheel (WS.init ((p + G.wrap - t % G.wrap) % G.wrap) t), "ok") else (sim, "bad-op")
+      if p < G.wrap then (.wheel (WF.init ((p + G.wrap - t % G.wrap) % G.wrap) t) false, "ok") else (sim, "bad-op")
     | _, _ => (sim, "bad-op")
   | ["new", "heap", t] =>
     match kvNat? [t] "time" with
-    | some t => (.heap (HS.init t), "ok")
+    | some t => (.heap (HF.init t) false, "ok")
     | none => (sim, "bad-op")
   | _ =>
   match sim with
   | .off => (sim, "bad-op")
-  | .wheel s =>
+  | .wheel x ann =>
+    let s := x.s
+    let put (s' : WS) : Sim := .wheel { x with s := s' } ann
     match ws with
     | ["cancel", i] =>
       match int? i with
       | some i =>
         if i < 0 then (sim, "false") else
         match WS.step G s (.cancel i.toNat) with
-        | .ok s' o => (.wheel s', showOut o)
+        | .ok s' o => (put s', showOut o)
         | .blocked => (sim, "full")
         | .panic => (.off, "panic")
       | none => (sim, "bad-op")
     | ["advance", n] =>
       match nat? n with
       | some n =>
+        if !wIdle x then (sim, "bad-op") else
         let s0 := { s with f := { s.f with log := [], dues := [] } }
         let s' := wheelTicks G n s0
-        (.wheel s', firedOf s'.f)
+        (put s', firedOf s'.f)
       | none => (sim, "bad-op")
+    | ["fbegin", _] =>
+      if !wIdle x then (sim, "bad-op") else
+      let x0 : WF := { x with s := { s with f := { s.f with log := [], dues := [] } } }
+      match WF.step G x0 .begin with
+      | .ok x' _ => (.wheel x' false, "ok")
+      | _ => (sim, "bad-op")
+    | ["yield"] =>
+      let x1 := if ann then (match WF.step G x .next with | .ok x' _ => some x' | _ => none) else some x
+      match x1.bind (wSilent G 8) with
+      | some x' => (.wheel x' (wPoint x').isSome, showPoint (wPoint x'))
+      | none => (.off, "panic")
+    | ["fend"] =>
+      let x1 := if ann then (match WF.step G x .next with | .ok x' _ => some x' | _ => none) else some x
+      match x1.bind (wSilent G 8) with
+      | some x' => if wIdle x' then (.wheel x' false, firedOf x'.s.f) else (.wheel x' false, "bad-sched")
+      | none => (.off, "panic")
     | ["size"] => (sim, toString s.f.refer.length)
     | ["sched", i] =>
       match int? i with
@@ -95,33 +162,56 @@ def drvStep (G : Geom) (sim : Sim) (line : String) : Sim × String :=
     | _ =>
       match act? ws with
       | some a =>
+        if (a == .add || a == .del) && !wIdle x then (sim, "bad-op") else
         match WS.step G s a with
-        | .ok s' o => (.wheel s', showOut o)
+        | .ok s' o => (put s', showOut o)
         | .blocked => (sim, "full")
         | .panic => (.off, "panic")
       | none => (sim, "bad-op")
-  | .heap s =>
+  | .heap x ann =>
+    let s := x.s
+    let put (s' : HS) : Sim := .heap { x with s := s' } ann
     match ws with
     | ["cancel", i] =>
       match int? i with
       | some i =>
         if i < 0 then (sim, "false") else
         match HS.step G s (.cancel i.toNat) with
-        | .ok s' o => (.heap s', showOut o)
+        | .ok s' o => (put s', showOut o)
         | .blocked => (sim, "full")
         | .panic => (.off, "panic")
       | none => (sim, "bad-op")
     | ["advance", n] =>
       match nat? n with
       | some n =>
+        if !hIdle x then (sim, "bad-op") else
         let s0 := { s with now := s.now + n, f := { s.f with log := [], dues := [] } }
         match HS.step G s0 .tick with
-        | .ok s' _ => (.heap s', firedOf s'.f)
+        | .ok s' _ => (put s', firedOf s'.f)
         | _ => (.off, "panic")
       | none => (sim, "bad-op")
+    | ["fbegin", n] =>
+      match nat? n with
+      | some n =>
+        if !hIdle x then (sim, "bad-op") else
+        let x0 : HF := { x with s := { s with now := s.now + n, f := { s.f with log := [], dues := [] } } }
+        match HF.step G x0 .begin with
+        | .ok x' _ => (.heap x' false, "ok")
+        | _ => (sim, "bad-op")
+      | none => (sim, "bad-op")
+    | ["yield"] =>
+      let x1 := if ann then (match HF.step G x .next with | .ok x' _ => some x' | _ => none) else some x
+      match x1.bind (hSilent G 8) with
+      | some x' => (.heap x' (hPoint x').isSome, showPoint (hPoint x'))
+      | none => (.off, "panic")
+    | ["fend"] =>
+      let x1 := if ann then (match HF.step G x .next with | .ok x' _ => some x' | _ => none) else some x
+      match x1.bind (hSilent G 8) with
+      | some x' => if hIdle x' then (.heap x' false, firedOf x'.s.f) else (.heap x' false, "bad-sched")
+      | none => (.off, "panic")
     | ["clock", n] =>
       match nat? n with
-      | some n => (.heap { s with now := s.now + n }, "ok")
+      | some n => (put { s with now := s.now + n }, "ok")
       | none => (sim, "bad-op")
     | ["size"] => (sim, toString s.f.refer.length)
     | ["sched", i] =>
@@ -132,8 +222,9 @@ def drvStep (G : Geom) (sim : Sim) (line : String) : Sim × String :=
     | _ =>
       match act? ws with
       | some a =>
+        if (a == .add || a == .del) && !hIdle x then (sim, "bad-op") else
         match HS.step G s a with
-        | .ok s' o => (.heap s', showOut o)
+        | .ok s' o => (put s', showOut o)
         | .blocked => (sim, "full")
         | .panic => (.off, "panic")
       | none => (sim, "bad-op")
